@@ -97,12 +97,14 @@ func newContractSet() *ContractSet {
 	return &ContractSet{ByKey: map[string]*Contract{}, SpecFuncs: map[string]*SpecFunc{}}
 }
 
+var ordRe = regexp.MustCompile(`#(\d+)`)
 var implRe = regexp.MustCompile(`\$([A-Za-z_][A-Za-z0-9_]*)`)
 
 // rewriteSpec turns the spec surface syntax into a parsable Go expression:
 // "A ==> B" -> "!(A) || (B)", "A <==> B" -> "(A) == (B)", "$n" -> "ζn".
 func rewriteSpec(s string) string {
 	s = implRe.ReplaceAllString(s, "ζ$1")
+	s = ordRe.ReplaceAllString(s, "ξ$1")
 	return rewriteSeg(s)
 }
 
